@@ -254,13 +254,13 @@ func c05Count(c *Ctx) {
 		if bad == "" {
 			ir.EachInstr(fn, func(_ *ssa.BasicBlock, _ int, in ssa.Instruction) {
 				r, ok := in.(*ssa.Return)
-				if !ok || len(r.Results) != 3 {
+				if !ok || len(ir.Results(r)) != 3 {
 					return
 				}
-				if unspill(r.Results[0]) != ssa.Value(okCtr) && !phiOf(unspill(r.Results[0]), okCtr) {
+				if unspill(ir.Results(r)[0]) != ssa.Value(okCtr) && !phiOf(unspill(ir.Results(r)[0]), okCtr) {
 					bad = "the first result (sessions reached) is not the counter incremented on the send's success edge"
 				}
-				if unspill(r.Results[1]) != ssa.Value(ngCtr) && !phiOf(unspill(r.Results[1]), ngCtr) {
+				if unspill(ir.Results(r)[1]) != ssa.Value(ngCtr) && !phiOf(unspill(ir.Results(r)[1]), ngCtr) {
 					bad = "the second result (sessions failed) is not the counter incremented on the send's failure edge"
 				}
 			})
@@ -279,10 +279,10 @@ func c05Count(c *Ctx) {
 			okRet := false
 			ir.EachInstr(m, func(_ *ssa.BasicBlock, _ int, in ssa.Instruction) {
 				r, ok := in.(*ssa.Return)
-				if !ok || len(r.Results) < 2 {
+				if !ok || len(ir.Results(r)) < 2 {
 					return
 				}
-				if ex, ok := r.Results[0].(*ssa.Extract); ok && ex.Index == 0 {
+				if ex, ok := ir.Results(r)[0].(*ssa.Extract); ok && ex.Index == 0 {
 					if call, ok := ex.Tuple.(*ssa.Call); ok && ir.StaticCallee(call) != nil {
 						okRet = true
 					}
